@@ -93,7 +93,11 @@ func (e *exec) send(i int, msg []byte) {
 	p := e.p[i]
 	enc := p.conv.IsEncrypted()
 	e.call(i, "Send", func() [][]byte {
-		out, err := p.conv.Send(msg)
+		priv := cloneBytes(msg) // the caller may reuse its message buffer as soon as Send has returned
+		raw, err := p.conv.Send(priv)
+		out := cloneAll(raw)
+		clobberAll(raw)
+		clobber(priv)
 		if err != nil {
 			e.logf("%s Send error %v", p.name, err)
 			if enc {
@@ -116,7 +120,11 @@ func (e *exec) send(i int, msg []byte) {
 func (e *exec) authenticate(i int, question, what string) {
 	p := e.p[i]
 	e.call(i, "Authenticate", func() [][]byte {
-		out, err := p.conv.Authenticate(question, p.secret)
+		sec := cloneBytes(p.secret) // the caller wipes its copy of the secret after the call
+		raw, err := p.conv.Authenticate(question, sec)
+		out := cloneAll(raw)
+		clobberAll(raw)
+		clobber(sec)
 		if err != nil {
 			e.logf("%s Authenticate(%s) error %v", p.name, what, err)
 			if e.netFault == 0 && e.abort == 0 {
